@@ -62,13 +62,13 @@ sends exactly one message if the target still accepts (handle: `Ok`), and otherw
 and reports the error through its handle. -/
 theorem sendAfter_fires (ops : List Op) (i : Nat) (τ : Timer) (a : Nat)
     (hi : (steps init ops).timers[i]? = some τ) (hk : τ.kind = .sendAfter) (hp : τ.res = .pending)
-    (ha : τ.armed = some a) (hd : wheelDeadline a τ.period ≤ (steps init ops).now) :
+    (ha : τ.armed = some a) (hd : wheelDeadline a τ.period ≤ (steps init ops).now) (hty : τ.typed = true) :
     let s := steps init ops
     let s' := step s (.fire i)
     ∃ τ', s'.timers[i]? = some τ' ∧ τ'.sentAt = [s.now] ∧
       (s.target.accepts = true → τ'.res = .ok ∧ s'.target.mbox = s.target.mbox ++ [(i, 1)]) ∧
       (s.target.accepts = false → τ'.res = .err ∧ s'.target.mbox = s.target.mbox) :=
-  sendAfter_fires' (Inv.init.steps ops) i τ a hi hk hp ha hd
+  sendAfter_fires' (Inv.init.steps ops) i τ a hi hk hp ha hd hty
 
 /-- A finished (returned or aborted) timer task never does anything again. -/
 theorem finished_frozen (s : State) (i : Nat) (τ : Timer) (hi : s.timers[i]? = some τ)
@@ -101,10 +101,10 @@ reached when `drain` is called or the message loop ends, NOT only when the actor
 `post_stop` runs nothing is accepted any more), and a handle that says `Err` belongs to a send made
 after that instant. -/
 theorem handle_reports_send (ops : List Op) (τ : Timer) (hτ : τ ∈ (steps init ops).timers)
-    (hk : τ.kind = .sendAfter) :
+    (hk : τ.kind = .sendAfter) (hty : τ.typed = true) :
     (τ.res = .ok → ∀ tc, (steps init ops).target.closedAt = some tc → ∀ t ∈ τ.sentAt, t ≤ tc) ∧
     (τ.res = .err → ∃ tc, (steps init ops).target.closedAt = some tc ∧ ∀ t ∈ τ.sentAt, tc ≤ t) :=
-  handle_reports_send' (Inv.init.steps ops) τ hτ hk
+  handle_reports_send' (Inv.init.steps ops) τ hτ hk hty
 
 /-- An interval task whose target left the active states — `closedAt`: the instant the message loop
 ended or `drain` was called; the target may still sit in `post_stop` for as long as it likes — ends
@@ -192,7 +192,23 @@ theorem drop_handle_frame_macro (ms : List MOp) :
       (mrun init ms).timers = (mrun init (undrop ms)).timers :=
   mrun_undrop ms ⟨rfl, rfl, rfl⟩
 
+/-- The free functions called with an `ActorCell` and a message type that is not the target's
+(`createX`): for every schedule the timer makes at most one attempt (the message builder runs once,
+`send_message` answers `InvalidActorType`), a pending one has made none — so the interval's loop
+was left through the `break` after its first tick —, and such a `send_after` never answers `Ok`.
+(All other theorems — never early, at most once, abort, frames — hold for these timers as for any other.) -/
+theorem mistyped_fails_once (ops : List Op) (τ : Timer) (hτ : τ ∈ (steps init ops).timers)
+    (hty : τ.typed = false) (hs : τ.kind.sends = true) :
+    (τ.res = .pending → τ.sentAt = []) ∧ τ.sentAt.length ≤ 1 ∧ (τ.kind = .sendAfter → τ.res ≠ .ok) :=
+  mistyped' (Inv.init.steps ops) τ hτ hty hs
+
 /-! ### Non-vacuity -/
+
+/-- a mistyped interval ticks once, fails, leaves its loop (`ok`), nothing reaches the target, which
+lives on; the mistyped send_after reports the error although the target is running -/
+example : let s := mrun init [.createX .interval 3000, .createX .sendAfter 2000, .create .interval 3000, .adv 3000, .adv 3000]
+    s.timers.map (fun τ => (τ.res, τ.sentAt)) = [(.ok, [3000]), (.err, [3000]), (.pending, [3000, 6000])] ∧
+      s.target.handled = [(2, 1, 3000), (2, 2, 6000)] ∧ s.target.closedAt = none := by decide
 
 /-- send_interval(0): panicked at the first poll, nothing sent, the target untouched; a later abort changes nothing -/
 example : let s := mrun init [.create .interval 0, .adv 5000, .abort 0]
@@ -291,3 +307,4 @@ end C12
 #print axioms C12.zero_interval_gone_when_quiescent
 #print axioms C12.drop_handle_frame
 #print axioms C12.drop_handle_frame_macro
+#print axioms C12.mistyped_fails_once
